@@ -26,13 +26,21 @@ the numerical guards of the EM routine.  They are used for *attribution* only:
 
   * mt_definition demands agreement of the returned likelihood with the definition in EVERY
     run (after the repair of _LogLikelihood no exclusion is needed);
-  * mt_ascent demands L[t+1] >= L[t] for every pair of iterations of a realisation that
-    precedes the first *precision-loss* event of that realisation (a subtractive update of
-    psiOmega / psiBarOmega produced a negative number, i.e. an elementary symmetric
-    polynomial lost all relative accuracy, see PRECISION_LOSS below).  Comparisons after that
-    point belong to the known finding "psi-cancellation"; they are excluded by construction,
-    counted (``ctx.exclude``) and decreases seen there are labelled
-    ``known:descent_after_precision_loss``.  A decrease before any such event is a violation.
+  * mt_ascent demands L[t+1] >= L[t] for every pair of consecutive iterations of a realisation
+    unless the known finding "psi-cancellation" (a subtractive update of psiOmega / psiBarOmega
+    lost all relative accuracy at ROUNDING size) can explain a decrease there; see the guard
+    policy (ROUNDING / GROSS / BENIGN_TOL / U_SMALL) below.  In short: demanded after no event,
+    after psiBarOmega_zeroed events in a realisation with a random start, and after a GROSS
+    negative (>= 1e-3) that the size of the memberships (<= 10) cannot explain; excluded by
+    construction and counted (``ctx.exclude``) after psiOmega_zeroed and after psiBarOmega_zeroed
+    in the spectral-start realisation; decreases seen in the excluded part are labelled
+    ``known:descent_after_precision_loss`` and raised under the known key.
+    Every case is labelled with the share of its comparisons that is demanded
+    (``demanded<20%`` ... ``demanded>=80%``; ``demanded_with_no_guard_event...`` for the event-free
+    share): a run whose cases sit mostly in ``demanded<20%`` checks next to nothing.
+  * mt_ascent additionally reads, through a read-only wrapper of the model's ``_update_em``,
+    the largest membership after every EM iteration (needed for the U_SMALL precondition; when
+    the method does not exist the policy falls back to excusing, label ``no_umax_probe``).
 """
 
 import math
@@ -51,8 +59,9 @@ ASSUMPTIONS = [
     "row i of u / of the HySC matrix belongs to the node hypergraph.get_mapping() sends to i "
     "(public label encoder; C09 checks the incidence matrices built with it)",
     "K in {2,3} (thorough: up to 4) and at least K nodes belong to a hyperedge (k-means of the "
-    "spectral start needs K samples); hyperedge sizes 2..D, D <= 5 (size-1 hyperedges are outside "
-    "the model: w has one row per size 2..D); positive integer weights",
+    "spectral start and of HySC needs K samples; HypergraphMT with baseline_r0=False is also run "
+    "with more communities than such nodes, see below); hyperedge sizes 2..D, D <= 5 (size-1 hyperedges are outside "
+    "the model: w has one row per size 2..D); positive weights (integers, sometimes non-integers)",
     "max_iter 1..40, n_realizations 1..3, check_convergence_every=1 so that train_info lists "
     "every iteration; tolerance/threshold_for_convergence at their defaults",
     "definition of the log-likelihood: sum_e A_e log sum_k w[|e|-2,k] prod_{i in e} u[i,k] "
@@ -67,12 +76,28 @@ ASSUMPTIONS = [
     "rows of nodes that belong to a hyperedge must be non-zero (and sum to 1) when normalizeU=True "
     "(fit docstring: every row sums to 1); for normalizeU=False a zero row of such a node is "
     "only classified (the statement asks for zero rows of isolated nodes, not the converse)",
-    "ascent is demanded for normalizeU=False and min_value_par in {1e-5, 0}, for every pair of "
-    "consecutive iterations of a realisation that precedes the realisation's first precision-loss "
-    "guard event (psiBarOmega_zeroed / psiBarOmega_negative_skip / psiOmega_zeroed / "
-    "psiOmega_flipped, reported by the HGX_VERIF hook); later pairs are the known finding "
-    "psi-cancellation, excluded by construction and counted; truncation at min_value_par and the "
-    "clip at max_value_par excuse nothing",
+    "ascent is demanded for normalizeU=False and min_value_par in {1e-5, 0} at ASC_TOL for every "
+    "pair of consecutive iterations (i) with no precision-loss guard event of the realisation so "
+    "far, (ii) after psiBarOmega_zeroed events only in a realisation with a random start "
+    "(baseline_r0=False or realisation >= 1; a decrease between ASC_TOL and BENIGN_TOL = "
+    "1e-6*(1+|L|) goes to the known key, a larger one is a violation), (iii) after a "
+    "psiBarOmega_negative_skip / psiOmega_flipped event (negative of magnitude >= 1e-3) that fired "
+    "while every membership of the realisation so far was <= 10 (with N <= 9, D <= 5 the "
+    "polynomials are <= 1.3e7 and rounding cannot reach 1e-3: not the known finding); the other "
+    "pairs (after psiOmega_zeroed; after psiBarOmega_zeroed in the spectral-start realisation; "
+    "after a gross event with memberships above 10) are the known finding psi-cancellation, "
+    "excluded by construction and counted; truncation at min_value_par and the clip at "
+    "max_value_par excuse nothing",
+    "calibration of (ii)/(iii) on the unchanged tree, 63000 mt_ascent cases (quick seeds 1..6, "
+    "thorough seeds 1..3): no gross event at all; after psiBarOmega_zeroed only, random start: "
+    "450947 comparisons in 40884 cases, largest relative decrease 4.6e-15 (no event at all: "
+    "1.7e-15); spectral start: 98157 comparisons, 74 decreases of relative size 1e-9 .. 7.8; "
+    "after psiOmega_zeroed: 106069 comparisons, 335 decreases up to 98",
+    "the largest membership per EM iteration is read by wrapping the model's private _update_em "
+    "(read-only; rows are assigned at most once per iteration, start rows are normalised); "
+    "without that method gross events excuse as before",
+    "K > number of nodes in a hyperedge (up to K = 6) is generated for baseline_r0=False only "
+    "(K <= covered nodes is the k-means precondition of the spectral start)",
     "stdout of the library (verbose=True in a fraction of the cases, unconditional prints of "
     "_update_psiOmega) is captured by the engine and never inspected",
 ]
@@ -117,6 +142,9 @@ def hypergraph_cases(draw, tier):
             "all_nodes": all_nodes, "K": K}
 
 
+K_OVER_MAX = 6  # largest K drawn for the "K > covered nodes" family (cost only)
+
+
 @st.composite
 def mt_cases(draw, tier, normalizeU=None, min_value_par=None, n_real=(1, 3), ascent=False):
     c = draw(hypergraph_cases(tier))
@@ -129,6 +157,11 @@ def mt_cases(draw, tier, normalizeU=None, min_value_par=None, n_real=(1, 3), asc
     c["baseline_r0"] = draw(st.sampled_from([False, False, True] if ascent else [False, True]))
     c["min_value_par"] = (draw(st.sampled_from([0.0, 1e-5]))
                           if min_value_par is None else min_value_par)
+    # more communities than nodes that belong to a hyperedge: in the domain ("every K"); K <= covered
+    # is only the k-means precondition of the spectral start, so it is kept for baseline_r0=True
+    covered = len({i for e in c["edges"] for i in e})
+    if not c["baseline_r0"] and covered + 1 <= K_OVER_MAX and draw(st.integers(0, 9)) == 0:
+        c["K"] = min(K_OVER_MAX, covered + draw(st.integers(1, 2)))
     c["verbose"] = draw(st.integers(0, 5)) == 0
     # the model object did another job before (fit on a small unrelated hypergraph)
     c["reused"] = draw(st.sampled_from([False, False, True]))
@@ -207,7 +240,28 @@ def seed_globals(k):
     np.random.seed(k % (2**32))
 
 
-def run_mt(case, h, global_seed=None):
+def attach_umax_probe(model):
+    """Read-only probe: the largest entry of the membership matrix after every EM iteration
+    (one number per call of the model's ``_update_em``).  Every node's row is assigned at most
+    once per iteration and the start rows are normalised (entries <= 1), so the running maximum
+    of the recorded numbers is the largest membership the realisation has held so far.  Returns
+    the list the numbers are appended to, or None when the model has no such method (then the
+    policy below falls back to excusing everything it cannot judge)."""
+    orig = getattr(model, "_update_em", None)
+    if not callable(orig):
+        return None
+    rec = []
+
+    def probed():
+        orig()
+        u = getattr(model, "u", None)
+        rec.append(float(np.max(u)) if u is not None and np.size(u) else float("nan"))
+
+    model._update_em = probed
+    return rec
+
+
+def run_mt(case, h, global_seed=None, probe=False):
     import importlib
     HypergraphMT = importlib.import_module(MT).HypergraphMT
     seed_globals(case["seed"] if global_seed is None else global_seed)
@@ -217,6 +271,7 @@ def run_mt(case, h, global_seed=None):
         min_value_par=case["min_value_par"], check_convergence_every=1,
         verbose=case["verbose"],
     )
+    umax = attach_umax_probe(model) if probe else None
     # BLAS/OpenMP pools of 16 threads per worker process make a 10 ms fit take seconds
     with threadpoolctl.threadpool_limits(limits=1):
         if case.get("reused"):
@@ -229,10 +284,14 @@ def run_mt(case, h, global_seed=None):
                       normalizeU=case["normalizeU"], baseline_r0=False)
             seed_globals(case["seed"] if global_seed is None else global_seed)
             reset_guard_events()
+            if umax is not None:
+                del umax[:]
         u, w, maxL = model.fit(h, K=case["K"], seed=case["seed"],
                                normalizeU=case["normalizeU"], baseline_r0=case["baseline_r0"])
     ev, log = guard_events()
     ev = Events(dict(ev), list(log)) if ev is not None and log is not None else None
+    if ev is not None and umax is not None:
+        ev.set_umax(list(umax))
     return model, u, w, maxL, ev
 
 
@@ -253,6 +312,10 @@ def label_config(case, ctx):
               "min_value_par=%g" % case["min_value_par"], "n_real=%d" % case["n_real"])
     if case.get("reused"):
         ctx.label("model_object_reused")
+    if case["K"] > len({i for e in case["edges"] for i in e}):
+        ctx.label("K>covered_nodes")
+        if case["K"] > len(case["labels"]):
+            ctx.label("K>all_nodes")
 
 
 def realisations(model, case):
@@ -337,16 +400,47 @@ def definition_interval(u, w, rows, edges, D):
 # guard policy
 
 # Call sites counted by the hook.  PRECISION_LOSS: a subtractive update of the incrementally
-# maintained elementary symmetric polynomials produced a NEGATIVE number, i.e. the entry has
-# lost all relative accuracy (the true value is >= 0); the guard then zeroes / flips it or
-# skips the node.  From that point of the realisation on psiOmega is no longer e_d(u) to
-# rounding, which is the known finding "psi-cancellation" (see the final report): comparisons
-# after the first such event are excluded by construction and counted, everything before it is
-# demanded at the stated tolerances.  The other events are parameterised projections of u
-# (min_value_par / max_value_par) and do not excuse anything.
+# maintained elementary symmetric polynomials produced a NEGATIVE number (the true value is
+# >= 0); the guard then zeroes / flips it or skips the node.  The library itself separates two
+# sizes (threshold 1e-3):
+#
+#   ROUNDING  psiBarOmega_zeroed / psiOmega_zeroed: every negative entry is smaller than 1e-3 in
+#             magnitude and is set to 0.  This is what cancellation at rounding size looks like
+#             (known finding "psi-cancellation": the entry has lost its relative accuracy, the
+#             M-steps that use it are inexact, the likelihood can decrease).
+#             - psiBarOmega_zeroed alone, in a realisation with a RANDOM start (baseline_r0=False
+#               or realisation >= 1), is harmless (true value exactly 0, computed -1e-17; fires in
+#               ~80% of the cases).  Calibration on the unchanged tree (63000 cases = quick seeds
+#               1..6 + thorough seeds 1..3): 450947 such comparisons, largest relative decrease
+#               4.6e-15, the same as without any event (1.7e-15).  Ascent stays DEMANDED there: a
+#               decrease above BENIGN_TOL*(1+|L|) is a violation ("descent"); one between ASC_TOL
+#               and BENIGN_TOL (never seen) would be reported under the known key.
+#             - psiBarOmega_zeroed in the realisation that starts from the spectral clustering
+#               (memberships of very different sizes: the cancelled value is tiny, not 0) is the
+#               known finding: 98157 comparisons, 74 decreases, relative size 1e-9 .. 7.8 (no
+#               size threshold separates them from a defect).  Excluded by construction, counted.
+#             - after a psiOmega_zeroed of the realisation (either start): 106069 comparisons, 335
+#               decreases, relative size up to 98.  Excluded by construction and counted.
+#   GROSS     psiBarOmega_negative_skip / psiOmega_flipped: a negative entry of magnitude >= 1e-3.
+#             While every membership the realisation has held is <= U_SMALL = 10, the polynomials
+#             are <= C(9,5)*10^5 ~ 1.3e7 (N <= 9 nodes, D <= 5), one rounding is <= ~1e-9 and the
+#             <= 40*9*5 updates of a realisation cannot accumulate 1e-3: such an event is NOT
+#             rounding, it is not the known finding and it excuses nothing -- from then on every
+#             comparison of the realisation is demanded at ASC_TOL ("descent").  When a membership
+#             above U_SMALL has occurred (up to max_value_par = 100: polynomials ~1e12, rounding
+#             1e-4..1e-3) or the probe is unavailable, a gross event excuses like psiOmega_zeroed.
+#
+# The other events are parameterised projections of u (min_value_par / max_value_par) and do
+# not excuse anything.
+ROUNDING = ("psiBarOmega_zeroed", "psiOmega_zeroed")
+GROSS = ("psiBarOmega_negative_skip", "psiOmega_flipped")
 PRECISION_LOSS = ("psiBarOmega_zeroed", "psiBarOmega_negative_skip", "psiOmega_zeroed",
                   "psiOmega_flipped")
 OTHER_EVENTS = ("u_clipped_max", "u_truncated_min", "u_nan", "u_negative_flipped", "loglik_nan")
+U_SMALL = 10.0
+# comparisons that follow psiBarOmega_zeroed events only (random start): a decrease above
+# BENIGN_TOL * (1 + |L[t]|) is a violation, a smaller one (above ASC_TOL) the known finding.
+BENIGN_TOL = 1e-6
 MARK_REAL, MARK_LL = "realization_started", "loglik_evaluated"
 
 
@@ -371,6 +465,48 @@ class Events:
         for segs in self.per_real:
             if segs and not segs[-1]:
                 segs.pop()
+
+    umax = None  # per realisation: largest membership after each iteration (probe), or None
+
+    def set_umax(self, flat):
+        """Split the probe's flat list by realisation; kept only when it lines up with the log."""
+        sizes = [len(segs) for segs in self.per_real]
+        if sum(sizes) != len(flat):
+            return
+        out, k = [], 0
+        for n in sizes:
+            out.append(flat[k:k + n])
+            k += n
+        self.umax = out
+
+    def categories(self, r, spectral_start):
+        """For every iteration t of realisation r, the status of the comparison L[t-1] -> L[t]
+        given the guard events up to and including iteration t:
+          "clean"    no precision-loss event so far             -> demanded at ASC_TOL
+          "gross"    a GROSS event fired while all memberships so far were <= U_SMALL
+                     (sticky)                                    -> demanded at ASC_TOL
+          "benign"   only psiBarOmega_zeroed so far, random start -> demanded (BENIGN_TOL)
+          "excluded" psiOmega_zeroed, or psiBarOmega_zeroed in the realisation that starts from
+                     the spectral clustering, or a GROSS event that the size of u may explain
+                                                                 -> known finding, counted"""
+        out, seen, gross, biggest = [], set(), False, 0.0
+        um = self.umax[r] if self.umax is not None else None
+        for t, seg in enumerate(self.per_real[r]):
+            if um is not None:
+                biggest = max(biggest, um[t]) if um[t] == um[t] else float("inf")
+            for e in seg:
+                if e in GROSS and um is not None and biggest <= U_SMALL:
+                    gross = True
+                seen.add(e)
+            if gross:
+                out.append("gross")
+            elif not seen.intersection(PRECISION_LOSS):
+                out.append("clean")
+            elif seen.intersection(GROSS) or "psiOmega_zeroed" in seen or spectral_start:
+                out.append("excluded")
+            else:
+                out.append("benign")
+        return out
 
     def first_loss(self, r):
         """Index of the first iteration of realisation r during (or before) which a
@@ -471,7 +607,7 @@ def check_ascent(case, ctx):
     D = classify(case, ctx, nodes, edges, covered)
     label_config(case, ctx)
     h = build(case)
-    model, u, w, maxL, ev = run_mt(case, h)
+    model, u, w, maxL, ev = run_mt(case, h, probe=True)
     rs = realisations(model, case)
     label_events(ev, ctx)
     if ev is not None:
@@ -483,41 +619,73 @@ def check_ascent(case, ctx):
             raise HarnessError(
                 "hook log lists %r likelihood evaluations per realisation, train_info %r"
                 % ([len(x) for x in ev.per_real], [len(rs[r]) for r in sorted(rs)]))
-    strict = demanded = skipped = 0
+        if ev.umax is None:
+            ctx.label("no_umax_probe")
+    strict = 0
+    n = {"clean": 0, "gross": 0, "benign": 0, "excluded": 0}
     hidden = []
     for r, rows in sorted(rs.items()):
-        first_bad = ev.first_loss(r) if ev is not None else None
+        cats = (ev.categories(r, spectral_start=bool(case["baseline_r0"]) and r == 0)
+                if ev is not None else ["clean"] * len(rows))
         for (i0, a), (i1, b) in zip(rows, rows[1:]):
+            cat = cats[i1]
+            n[cat] += 1
             slack = 1e-9 * (1.0 + abs(a))
-            ok = b >= a - slack
-            if first_bad is not None and i1 >= first_bad:
-                skipped += 1
-                if not ok:
-                    hidden.append([r, i0, a, b])
-                continue
-            demanded += 1
-            if b > a + slack:
+            if b > a + slack and cat != "excluded":
                 strict += 1
-            if not ok:
-                seg = ev.per_real[r][i1] if ev is not None else None
-                raise Violation(
-                    "log-likelihood decreases in realisation %d from iteration %d to %d: "
-                    "%r -> %r (drop %.3g > slack %.3g) with no precision-loss guard event up to "
-                    "that iteration (events during it: %r); normalizeU=%s min_value_par=%g "
-                    "baseline_r0=%s; all events %r"
-                    % (r, i0, i1, a, b, a - b, slack, seg, case["normalizeU"],
-                       case["min_value_par"], case["baseline_r0"],
-                       ev.summary() if ev else None), key="descent")
-    if skipped:
-        ctx.exclude("likelihood comparisons after the first precision-loss guard event of a "
-                    "realisation (known finding psi-cancellation)")
+            if b >= a - slack:
+                continue
+            if cat == "excluded" or (cat == "benign" and a - b <= BENIGN_TOL * (1.0 + abs(a))):
+                hidden.append([r, i0, a, b, cat])
+                continue
+            seg = ev.per_real[r][i1] if ev is not None else None
+            upto = sorted({e for sg in ev.per_real[r][:i1 + 1] for e in sg}) if ev else None
+            why = {
+                "clean": "with no precision-loss guard event up to that iteration",
+                "benign": "in a realisation with a random start after psiBarOmega_zeroed events "
+                          "only (negatives below 1e-3 set to 0, no psiOmega_zeroed): the drop "
+                          "exceeds the %g*(1+|L|) = %.3g that rounding-size cancellation is "
+                          "allowed there" % (BENIGN_TOL, BENIGN_TOL * (1.0 + abs(a))),
+                "gross": "after a psiBarOmega_negative_skip / psiOmega_flipped event (an "
+                         "elementary symmetric polynomial came out NEGATIVE by >= 1e-3) although "
+                         "no membership of the realisation has exceeded %g (largest so far %r): "
+                         "that is not rounding and excuses nothing"
+                         % (U_SMALL, max(ev.umax[r][:i1 + 1]) if ev and ev.umax else None),
+            }[cat]
+            raise Violation(
+                "log-likelihood decreases in realisation %d from iteration %d to %d: "
+                "%r -> %r (drop %.3g > slack %.3g) %s (events of the realisation up to it: %r, "
+                "during it: %r); normalizeU=%s min_value_par=%g baseline_r0=%s; all events %r"
+                % (r, i0, i1, a, b, a - b, slack, why, upto, seg, case["normalizeU"],
+                   case["min_value_par"], case["baseline_r0"],
+                   ev.summary() if ev else None), key="descent")
+    demanded = n["clean"] + n["gross"] + n["benign"]
+    total = demanded + n["excluded"]
+    if n["excluded"]:
+        ctx.exclude("likelihood comparisons after a psiOmega_zeroed guard event of the realisation "
+                    "(or a psiBarOmega_zeroed one after the spectral start, or a gross one that "
+                    "memberships above 10 may explain): known finding psi-cancellation")
         ctx.label("comparisons_excluded")
-    if hidden:
-        ctx.label("known:descent_after_precision_loss")
+    if n["benign"]:
+        ctx.label("comparisons_demanded_relaxed(after_psiBarOmega_zeroed)")
+    if n["gross"]:
+        ctx.label("comparisons_demanded_after_gross_negative")
     if demanded:
         ctx.label("comparisons_demanded")
+    if total:
+        # safety net for readers of the evidence: a run whose cases mostly sit in the first
+        # bucket demands next to nothing (the engine cannot fail a run from inside a case)
+        f, fs = demanded / total, n["clean"] / total
+        ctx.label("demanded" + ("<20%" if f < 0.2 else "<50%" if f < 0.5 else
+                                "<80%" if f < 0.8 else ">=80%"))
+        ctx.label("demanded_with_no_guard_event" + ("<20%" if fs < 0.2 else "<50%" if fs < 0.5 else
+                                           "<80%" if fs < 0.8 else ">=80%"))
+    if hidden:
+        ctx.label("known:descent_after_precision_loss")
     ctx.trace = {"guard_events": ev.summary() if ev else None, "strict_increases": strict,
-                 "demanded": demanded, "excluded": skipped, "descents_in_excluded_part": hidden}
+                 "comparisons": n, "tolerated_descents": hidden,
+                 "largest_membership": [max(x) if x else None for x in ev.umax]
+                 if ev is not None and ev.umax is not None else None}
     ctx.nontrivial(strict >= 5 and D >= 3)
     if strict >= 5:
         ctx.label("five_strict_increases")
@@ -526,8 +694,9 @@ def check_ascent(case, ctx):
         # it is printed as KNOWN-FINDING while listed in known_findings.txt and becomes a
         # VIOLATION again if the listing is removed
         raise Violation(
-            "log-likelihood decreases after a precision-loss guard event of the realisation "
-            "(psiOmega/psiBarOmega went negative and were zeroed/flipped/skipped): %r; events %r"
+            "log-likelihood decreases after a rounding-size precision-loss guard event of the "
+            "realisation (psiOmega/psiBarOmega went negative by less than 1e-3 and were zeroed; "
+            "[realisation, iteration, L, L', status]): %r; events %r"
             % (hidden[:3], ev.summary() if ev else None), key="psi-cancellation")
 
 
